@@ -36,6 +36,17 @@ bool build_check(const std::string& prop, const std::string& tier, CheckSpec& s,
         s.batches.push_back(mk("wkd", q ? 16 : 1500, {"C/portable32"}, "single", {{"focus", focus}, {"maxops", 12}}, "32-bit-word replica (10x slower)"));
         return true;
     }
+    if (prop == "C15" || prop == "C17") {
+        s.level = "fault_enumeration";
+        s.rule = "case = one delivery of a marshalled object through the simulated store: (object kind, form, validating?, slot count, signature support, fault token(s) incl. target element and malformation kind, outcome); distinct by that tuple; non-trivial iff the delivered bytes differ from the bytes written";
+        s.batches.push_back(mk("wkd", 80, {"A/bmi2-adx", "B/portable64"}, "single", {{"hopenum", 1}, {"stride", q ? 5 : 1}}, "enumeration: every embedded element x every invalid-encoding kind, truncation lengths (every length in thorough, every 5th in quick), extensions, byte flips, junk buffers; 5 object kinds x 2 forms x validating/not x 4 shapes"));
+        s.batches.push_back(mk("wkd", q ? 64 : 6000, FAST, "single", {{"focus", 15}}, "histories with marshalling hops and restarts in between the scheme operations"));
+        if (prop == "C17") {
+            s.batches.push_back(mk("wkd", q ? 48 : 4000, ALL, "single", {{"focus", 0}}, "every API call sequence of the WKD-IBE properties under ASan+UBSan"));
+            s.batches.push_back(mk("enc", q ? 32 : 2000, ALL, "single", {}, "point decode of damaged bytes under ASan+UBSan"));
+        }
+        return true;
+    }
     err = "no check registered for property " + prop;
     return false;
 }
